@@ -235,15 +235,17 @@ class Program:
             self.by_exact.setdefault(f.name, f)
             last = _last_seg(f.name)
             self.by_last.setdefault(last, []).append(f)
-            mi = re.search(r"<impl at (src/[^:]+):(\d+):\d+: \d+:\d+>::(\w+)$", f.name)
+            mi = re.search(r"<impl at (src/[^:]+):(\d+):(\d+): \d+:\d+>::(\w+)$", f.name)
             if mi:
-                hdr = self.impl_header(mi.group(1), int(mi.group(2)))
+                hdr = self.impl_header(mi.group(1), int(mi.group(2)), int(mi.group(3)))
+                mi = re.match(r"(.*)", mi.group(1)), mi  # keep groups accessible below
+                mi = mi[1]
                 if hdr:
                     trait, selfty = hdr
                     if trait:
-                        self.traitimpl.setdefault((_base(selfty), _base(trait), mi.group(3)), []).append((f, selfty, trait))
+                        self.traitimpl.setdefault((_base(selfty), _base(trait), mi.group(4)), []).append((f, selfty, trait))
                     else:
-                        self.inherent.setdefault((_base(selfty), mi.group(3)), []).append((f, selfty, None))
+                        self.inherent.setdefault((_base(selfty), mi.group(4)), []).append((f, selfty, None))
             mt = re.match(r"^(?:\w+::)*(\w+)::(\w+)$", f.name)
             if mt and f.params and "Self" in f.params[0][1]:
                 self.traitdefault.setdefault((mt.group(1), mt.group(2)), []).append(f)
@@ -254,8 +256,8 @@ class Program:
             if f.kind == "const":
                 self.consts.setdefault(f.name, f)
 
-    def impl_header(self, path, line):
-        key = (path, line)
+    def impl_header(self, path, line, col=None):
+        key = (path, line, col)
         if key in self.impl_cache:
             return self.impl_cache[key]
         res = None
@@ -263,6 +265,17 @@ class Program:
             lines = open(os.path.join(self.src_root, path)).read().split("\n")
             text = ""
             i = line - 1
+            if lines[i].lstrip().startswith("#[derive(") or "derive(" in lines[i]:
+                # derived impl: the trait is the identifier at the recorded column, Self is the next struct/enum
+                col = key[2] if len(key) > 2 else None
+                j = i
+                while j < len(lines) and not re.match(r"\s*(pub(\([^)]*\))?\s+)?(struct|enum)\s+(\w+)", lines[j]):
+                    j += 1
+                if j < len(lines) and col is not None:
+                    selfty = re.match(r"\s*(?:pub(?:\([^)]*\))?\s+)?(?:struct|enum)\s+(\w+)", lines[j]).group(1)
+                    trait = re.match(r"\w+", lines[i][col - 1:]).group(0)
+                    self.impl_cache[key] = (trait, selfty)
+                    return (trait, selfty)
             while i < len(lines) and "{" not in text:
                 text += " " + lines[i].strip()
                 i += 1
@@ -375,6 +388,7 @@ class Executor:
         self.encoded = set()
         self.stats = {"calls": 0, "blocks": 0, "bitor_queries": 0}
         self.cur_state = None
+        self.div_cache = {}
 
     # -- helpers -------------------------------------------------------------------------------
     def fresh(self, prefix, sort="Int"):
@@ -436,6 +450,11 @@ class Executor:
         ev = self.enum_const(t)
         if ev is not None:
             return ev
+        # tuple-struct constant, e.g. `OutOfRangeError(())`
+        mts = re.fullmatch(r"([A-Za-z_][\w:]*)\((.*)\)", t)
+        if mts and not mts.group(1).startswith(("core::", "std::")):
+            inner = [x for x in split_top(mts.group(2)) if x != ""]
+            return Agg("struct", _base(mts.group(1)), [self.const_value(x) for x in inner])
         # ZST constructors / function items
         if t.startswith("{closure") or t.startswith("fn("):
             return OpaqueV(t)
@@ -722,7 +741,11 @@ class Executor:
         if z3.is_int_value(b):
             q = tdiv(a, b)
             return q, a - b * q
+        key = (a.get_id(), b.get_id())
+        if key in self.div_cache:
+            return self.div_cache[key]
         q, r = self.fresh("q"), self.fresh("r")
+        self.div_cache[key] = (q, r)
         absb = z3.If(b >= 0, b, -b)
         lemma = z3.Implies(b != 0, z3.And(a == q * b + r, z3.If(a >= 0, z3.And(r >= 0, r < absb), z3.And(r <= 0, -r < absb))))
         self.side.append(lemma)
@@ -936,7 +959,7 @@ class Executor:
     def intrinsic(self, st, callee, args):
         c = callee
         # panics
-        if re.search(r"(core|std)::panicking::|::panic_fmt|::panic_const|option::expect_failed|option::unwrap_failed|result::unwrap_failed|slice_index|begin_panic|::panic_display|assert_failed", c):
+        if re.search(r"(core|std)::panicking::|::panic_fmt|::panic_const|option::expect_failed|option::unwrap_failed|result::unwrap_failed|slice_index|begin_panic|::panic_display|assert_failed|^panic_display|^panic_fmt|^panic_nounwind|^unreachable_display", c):
             self.panics.append((st.pc, f"call to {c}", "?"))
             return None, None
         m = re.fullmatch(r"(?:core|std)::num::<impl (\w+)>::(\w+)", c)
